@@ -49,6 +49,16 @@ theorem model_upgrade_names : [hConnection, hUpgrade].map String.ofList = ["Conn
 /-- `websvc.New` builds the handler from the configured target URL. -/
 theorem mount_src : mount_args = "l.TargetURL, c.ErrColl, addr, c.Timeout" := by decide
 
+/-- Round 4, production wiring: the cmd builder hands `LINKED_IP_TARGET_URL` (and no other URL of the
+environment) to the linked-IP server, as a clone of the whole URL; `initWeb` builds the service from
+exactly that configuration; the general web handler (non-DoH bind addresses and the non-DNS requests
+of the DoH servers) calls neither the linked-IP handler nor `shouldProxy`. -/
+theorem cmd_wiring_src : (cmd_linkedip_args, cmd_target_url, cmd_initweb_conf, cmd_initweb_new) =
+    ("ctx, tlsMgr, envs.LinkedIPTargetURL", "netutil.CloneURL(&targetURL.URL)",
+     "c.toInternal(ctx, b.env, b.dnsCheck, b.errColl, b.tlsManager)", "websvc.New(webConf)") := by decide
+theorem general_handler_src : general_handler_calls =
+    "svc.dnsCheck.ServeHTTP,serveRobotsDisallow,http.NotFound,http.Redirect,svc.staticContent.ServeHTTP" := by decide
+
 /-- The golibs header-name constants are the canonical names the model uses. -/
 theorem hdr_names_src :
     [hdr_XConnectingIP, hdr_XRequestID, hdr_CFConnectingIP, hdr_Forwarded, hdr_TrueClientIP, hdr_XRealIP,
